@@ -11,7 +11,8 @@ EXPLANATION = (
     "never `is int`), so list inputs take the float promotion after the map; R6 indexing builds its element with Fxp(like=self) only (keeps scale/bias/scaled); "
     "size inference uses the normaliser's output. Residual: binary64 exactness of the two affine steps."
     ' Added after the third round of seeded changes: constructor state (C20.R2): element views and like= objects start with their own fresh status record.'
-    ' Added after the fourth round of seeded changes: R8 on every path that applies the map the value type is tested for int and promoted; equal() and the other re-scaling routes (C10.R1/R2); the scaled indicator is recomputed after a state copy (C20.R2); C20.R8 objects carry only the documented attributes and no function writes module-level containers (no caches / memos that go stale).')
+    ' Added after the fourth round of seeded changes: R8 on every path that applies the map the value type is tested for int and promoted; equal() and the other re-scaling routes (C10.R1/R2); the scaled indicator is recomputed after a state copy (C20.R2); C20.R8 objects carry only the documented attributes and no function writes module-level containers (no caches / memos that go stale).'
+    ' Added after the fifth round of seeded changes: R2b the real attribute is read through get_val(); R4b the normaliser writes no attribute of the object on a rejecting path; C20.R8 also forbids mutable default arguments and private attributes hung on operands (x._cache, x.__dict__[...]).')
 ASSUMPTIONS = ["scale != 0", "np.dtype('int64') == int holds while `is int` does not (NumPy lemma)"]
 TRUSTED = ["CPython ast", "fxlint rational term normaliser"]
 
